@@ -3,7 +3,8 @@ ENTRY = {
     "driver": "_c14",
     "models": ["Json/FlagsModel.v (hand-written model of decodeInterface's number case, decodeDynamicNumber, decodeInto and the decode functions it calls, "
                "over the machine-translated scanners parseNumber/parseInt/parseUint/parseValue of Generated/JsonParseGen.v; member order of the map encoders)",
-               "Json/FlagsSpec.v (decision table of the documented precedence of UseNumber/UseBigInt/UseInt64/UseUint64)"],
+               "Json/FlagsSpec.v (decision table of the documented precedence of UseNumber/UseBigInt/UseInt64/UseUint64)",
+               "Json/TreeFlagsModel.v (hand-written: the value-tree encoder and decoder of Json/TreeModel.v with the AppendFlags / ParseFlags explicit)"],
     "rule": "f.append: the json type/value universe of jtypes.go (hand-picked shapes for the five specialised map encoders and the generic one with up to 10 entries, keys and struct "
             "tags that need HTML escaping, RawMessage members valid and invalid, nested in slices/structs/pointers/interfaces; plus seeded random types) x all 8 AppendFlags subsets "
             "(TrustRawMessage only when every reachable RawMessage is valid): error iff the default flags (EscapeHTML|SortMapKeys) give an error; bytes equal the default output "
@@ -16,7 +17,9 @@ ENTRY = {
             "through JSON in encoding/json either), input buffer unchanged. "
             "f.num: number literals (64-bit boundaries, wrap-around candidates, negatives, > 64 bit, fractions, exponents, -0, float range limits; a malformed stream) x all 16 subsets of "
             "UseNumber/UseBigInt/UseInt64/UseUint64 x random other flags x 8 contexts (top level, array, object, []any, map[string]any, *any field, white space, Decoder.UseNumber): "
-            "dynamic type and exact value vs a math/big transcription of the documentation, vs the extracted Coq model of the code, and the oracle vs the extracted decision table",
+            "dynamic type and exact value vs a math/big transcription of the documentation, vs the extracted Coq model of the code, and the oracle vs the extracted decision table. "
+            "c14tree (own binary): f.tree.enc = Append(nil, v, flags) of values of the tree universe for the AppendFlags subsets against encoding/json's Encoder (when the order is repeatable) and the extracted jenc_f; f.tree.encsort = the unsorted output with the members of every map re-sorted by a type-directed re-tokeniser, byte-identical to the sorted encoding; "
+            "f.tree.encrt = the unsorted output decodes (encoding/json) to the original; f.tree.dec = Parse under the subsets of DontMatchCaseInsensitiveStructFields / DisallowUnknownFields / DontCopy* of the package's own output and of mutated documents (case-changed, unknown, reordered, duplicated keys) against encoding/json and the extracted jdec_f, with the input overwritten before rendering when DontCopyString is off",
     "nontrivial": nontrivial_default,
     "trusted_base": COMMON_TB + ["Json/FlagsModel.v: hand transcription of the glue of decode.go around the translated scanners; math/big's Int.UnmarshalJSON modelled by its specification on JSON values; "
                                  "strconv.ParseFloat is a Section variable of the model (the driver supplies the C library's strtod), its result is never constrained by a theorem",
@@ -24,7 +27,7 @@ ENTRY = {
                                  "encoding/json (go1.23.5) as oracle for bytes and generic values"],
     "assumptions": ["default flags = EscapeHTML|SortMapKeys (what Marshal uses)", "number literals shorter than 2^62 bytes",
                     "TrustRawMessage only with valid raw messages (its documented precondition); with it, white space inside raw messages is copied and is compared after compaction"],
-    "builds": [("harness_c14", "verif,c14")],
+    "builds": [("harness_c14", "verif,c14"), ("harness_c14tree", "verif,c14tree", "c14tree")],
 }
 CLAIM = {
     "text": "Theorems (Properties/C14.v). For EVERY valid number literal (shorter than 2^62 bytes) and EVERY flag word, the model of decodeInterface's number case "
@@ -35,6 +38,10 @@ CLAIM = {
             "exactly outside uint64/int64 (c14_parse_uint_exact, c14_parse_int_exact: the theorem that failed before fix f69c661), and parseNumber consumes every valid literal and classifies "
             "it Int/Uint/Float (c14_parse_number_kind). In an abstract model of the map encoders the members written without SortMapKeys are a permutation of the sorted ones and a "
             "last-wins decoder reads the same object (c14_map_order_permutation, c14_map_order_same_object). "
+            "STRUCTURE (c14tree_* theorems, Json/TreeFlagsModel.v over the value-tree model of C01/C02, tied to /repo by ~60k f.tree.* cases per run): for every type of the tree universe, every well-formed value, EscapeHTML on or off and ANY order in which the members of each map are written (an admissible oracle; in the relational form penc every map occurrence is permuted independently, as Go randomises each range), "
+            "the output is an RFC 8259 text (c14tree_append_flags_valid) that the decoder reads back as exactly the value read from the default output (c14tree_append_flags_meaning, _same_value, _rel_meaning); with both flags on it is Marshal's output byte for byte (c14tree_flags_default); EscapeHTML changes only the inside of string tokens, replacing the three bytes < > & by their u00XX escapes (c14tree_escape_html_only_strings, _escape_html_string, _no_html_same_bytes); "
+            "unsorted members are a permutation of the sorted ones and maps of at most one entry are written identically (c14tree_unsorted_is_permutation, _unsorted_small_maps). Parse side: with no flag jdec_f is the Unmarshal model for every input (c14tree_parse_default); on the package's own output under any AppendFlags, DontMatchCaseInsensitiveStructFields and DisallowUnknownFields in any combination return the same value (c14tree_parse_flags_meaning, also with white space); "
+            "for EVERY document DisallowUnknownFields only rejects, never changes a decoded value, and a document accepted under both struct-key flags decodes alike under every setting (c14tree_strict_only_rejects, _exact_strict_universal); the converse equations are refuted by concrete documents (a key differing by case, an unknown key). "
             "Everything else of the property is decided by correspondence with encoding/json on every run: the 8 AppendFlags subsets on the json type/value universe incl. the five specialised "
             "map encoders (error equivalence with the default flags, bytes equal to encoding/json with SetEscapeHTML(false), permutation-only differences when unsorted, same generic value), "
             "the Encoder setters, Parse/Decoder under all 16 subsets of DontCopyString/DontCopyNumber/DontCopyRawMessage/DontMatchCaseInsensitiveStructFields, and the four number flags on whole documents.",
